@@ -22,6 +22,9 @@ ASSUMPTIONS = ["delProperty answers for disabled properties of addressed devices
 REQUIRED_EVENTS = ["requests", "definitions_compared", "driver_emitted_messages_validated", "requests_named", "requests_unknown"]
 
 
+QUICK_SHARDS = 4
+
+
 def gen_case(ctx, i):
     rng = ctx.rng("case", i)
     ndev = rng.choice([1, 1, 2, 3])
@@ -154,7 +157,7 @@ def request(ctx, case, tap, router, rec, drivers, specs, tracks, dev, name):
 
 
 def run(ctx):
-    n = 700 if not ctx.thorough else 60000
+    n = 2400 if not ctx.thorough else 60000
     for i in range(n):
         if not ctx.mine(i):
             continue
